@@ -500,6 +500,10 @@ fn gen_inst_probes(kind: Kind, lits: &[u64], out: &mut Vec<Case>) {
         let mut i = mk_inst(kind, windows(kind, &TOUCH3), default_members(3));
         i.roots[1] = Root::Bad;
         out.push(case("inst:bad-root", kind, i, vec![]));
+        // a root spelled in upper-case hex denotes the same hash (fix c2c314c)
+        let mut i = mk_inst(kind, windows(kind, &GAP3), default_members(3));
+        i.roots = vec![Root::LeafUpper(100), Root::Pair(101, 110), Root::LeafUpper(102)];
+        out.push(case("inst:roots-upper-case", kind, i, vec![Op::Sweep]));
         // same root under two stages: only the clock decides
         let mut i = mk_inst(kind, windows(kind, &GAP3), default_members(3));
         i.roots = vec![Root::Pair(100, 110), Root::Leaf(100), Root::Pair(100, 110)];
@@ -754,7 +758,7 @@ fn gen_history(rng: &mut Rng, kind: Kind, idx: usize) -> Case {
     if kind == Kind::Merkle {
         for r in &inst.roots {
             match r {
-                Root::Leaf(m) => probes.push(Probe { member: *m, proof: vec![] }),
+                Root::Leaf(m) | Root::LeafUpper(m) => probes.push(Probe { member: *m, proof: vec![] }),
                 Root::Pair(a, b) => probes.push(Probe { member: *a, proof: vec![*b as i64] }),
                 Root::Bad => {}
             }
